@@ -329,3 +329,63 @@ var siblingExceptions = map[string]string{
 	"ast.ExprList <- T_LIST '(' <node> ')'":      "PHP 5 turns `list()` with one empty slot into an empty list; an empty list() is a compile error in PHP 7, so this is not shared syntax",
 	"ast.ExprArrayItem <- T_LIST '(' <node> ')'": "PHP 5 turns a nested `list()` with one empty slot into an empty list; an empty list() is a compile error in PHP 7, so this is not shared syntax",
 }
+
+// ReportPositions: every semantic error an action delivers carries a constant
+// non-empty message and the Position of a token, or of a node for which the
+// grammar has set a Position on every production that can yield it.
+func (l *Lang) ReportPositions(shapes map[string]*Shape) *report.RuleResult {
+	res := report.NewResult("report-positions")
+	g := l.L.G
+	for n := 1; n < len(l.Actions); n++ {
+		a := l.Actions[n]
+		pkey := l.L.Label + ":" + g.Key(a.Prod)
+		seen := map[string]bool{}
+		for _, p := range a.Paths {
+			for _, ev := range p.St.Events {
+				if ev.Kind != "report" || len(ev.Args) != 1 {
+					continue
+				}
+				k := fmt.Sprintf("%s/%s", pkey, Canon(ev.Args[0]))
+				if len(k) > 160 {
+					k = k[:160]
+				}
+				if seen[k] {
+					continue
+				}
+				seen[k] = true
+				res.Count("reports", 1)
+				e, ok := ev.Args[0].(ErrV)
+				if !ok || len(e.Args) != 2 {
+					res.Bad(k, l.Prog.Pos(ev.At), a.Prod.String(), "the reported value is not built by errors.NewError(msg, pos)")
+					continue
+				}
+				msg, isConst := e.Args[0].(Opq)
+				if !isConst || !strings.HasPrefix(msg.What, "const \"") || len(msg.What) < 10 {
+					res.Bad(k, l.Prog.Pos(ev.At), a.Prod.String(), "error message is not a non-empty constant: "+e.Args[0].String())
+					continue
+				}
+				pp, isPart := e.Args[1].(Part)
+				if !isPart || pp.F != "Position" {
+					res.Bad(k, l.Prog.Pos(ev.At), a.Prod.String(), "error position is not the Position of a token or node: "+e.Args[1].String())
+					continue
+				}
+				if pp.T == "token.Token" {
+					res.OK(k, l.Prog.Pos(ev.At), a.Prod.String(), "position of token "+pp.Base.String()+" (set by the scanner for every token)")
+					continue
+				}
+				sy, direct := pp.Base.(Sym)
+				if !direct || sy.I < 1 || sy.I > len(a.Prod.RHS) {
+					res.Unknown(k, l.Prog.Pos(ev.At), a.Prod.String(), "undecided: position of "+pp.Base.String())
+					continue
+				}
+				sh := shapes[a.Prod.RHS[sy.I-1]]
+				if sh != nil && sh.Types[pp.T]["Position"] {
+					res.OK(k, l.Prog.Pos(ev.At), a.Prod.String(), fmt.Sprintf("position of $%d: every production yielding a %s for %s sets its Position", sy.I, pp.T, a.Prod.RHS[sy.I-1]))
+				} else {
+					res.Bad(k, l.Prog.Pos(ev.At), a.Prod.String(), fmt.Sprintf("the error takes its position from $%d.(*%s).Position, but the productions of %s build that object without a Position: the error is delivered with a nil position although it is not an end-of-input error", sy.I, pp.T, a.Prod.RHS[sy.I-1]))
+				}
+			}
+		}
+	}
+	return res
+}
